@@ -64,6 +64,8 @@ type normalizer struct {
 	closureSet bool
 	marked     map[types.Object]bool // closures that received (or already have) a `_ = f` marker this round
 	extra      map[string][]textEdit // edits produced on the side (markers), per file
+	encl       map[ast.Stmt]*types.Signature // enclosing function of each collected statement
+	addImp     map[*ast.File]map[string]string // imports to add to a file (path -> local name or "")
 }
 
 func (n *normalizer) off(p token.Pos) int { return n.fset.Position(p).Offset }
@@ -402,6 +404,7 @@ type inlineOpts struct {
 	targets []string
 	handler string
 	avoid   map[string]bool
+	tail    bool // the call is the sole operand of a return statement: the callee's returns become the caller's
 }
 
 func (n *normalizer) inlineCall(call *ast.CallExpr, file *ast.File, at token.Pos) (string, []string, bool) {
@@ -502,6 +505,7 @@ func (n *normalizer) inlineCallX(call *ast.CallExpr, file *ast.File, at token.Po
 		callerImports[strings.Trim(im.Path.Value, "\"")] = nm
 	}
 	okImp := true
+	needImp := map[string]string{}
 	ast.Inspect(fd.Body, func(x ast.Node) bool {
 		if id, ok := x.(*ast.Ident); ok {
 			if pn, ok := info.Uses[id].(*types.PkgName); ok {
@@ -510,7 +514,10 @@ func (n *normalizer) inlineCallX(call *ast.CallExpr, file *ast.File, at token.Po
 				if pn.Name() != pn.Imported().Name() {
 					want = pn.Name()
 				}
-				if !has || nm != want {
+				if !has {
+					// the caller's file does not import the package yet: add the import
+					needImp[pn.Imported().Path()] = want
+				} else if nm != want {
 					okImp = false
 				}
 			}
@@ -538,6 +545,20 @@ func (n *normalizer) inlineCallX(call *ast.CallExpr, file *ast.File, at token.Po
 	if !okScope {
 		return n.fail(5)
 	}
+	registerImports := func() {
+		if len(needImp) == 0 {
+			return
+		}
+		if n.addImp == nil {
+			n.addImp = map[*ast.File]map[string]string{}
+		}
+		if n.addImp[file] == nil {
+			n.addImp[file] = map[string]string{}
+		}
+		for k, v := range needImp {
+			n.addImp[file][k] = v
+		}
+	}
 	n.counter++
 	k := n.counter
 	prefix := fmt.Sprintf("inl%d_", k)
@@ -549,7 +570,17 @@ func (n *normalizer) inlineCallX(call *ast.CallExpr, file *ast.File, at token.Po
 	var sb strings.Builder
 	nres := sig.Results().Len()
 	var temps []string
-	if opts != nil {
+	tail := opts != nil && opts.tail
+	if tail {
+		// named results of the callee would need temporaries; bare returns too
+		if fd.Type.Results != nil {
+			for _, f := range fd.Type.Results.List {
+				if len(f.Names) > 0 {
+					return n.fail(60)
+				}
+			}
+		}
+	} else if opts != nil {
 		if len(opts.targets) != nres {
 			return n.fail(6)
 		}
@@ -639,6 +670,9 @@ func (n *normalizer) inlineCallX(call *ast.CallExpr, file *ast.File, at token.Po
 		}
 	}
 	retStmt := func(results string, nr int) string {
+		if tail {
+			return "return " + results
+		}
 		if len(temps) == 0 {
 			return "break " + label
 		}
@@ -652,7 +686,7 @@ func (n *normalizer) inlineCallX(call *ast.CallExpr, file *ast.File, at token.Po
 	}
 	var retTail func(z *ast.ReturnStmt) (string, bool)
 	var avoid map[string]bool
-	if opts != nil {
+	if opts != nil && !tail {
 		avoid = opts.avoid
 		retTail = func(z *ast.ReturnStmt) (string, bool) {
 			if n.retErrKind(fd, z, nres) == "fail" {
@@ -667,11 +701,20 @@ func (n *normalizer) inlineCallX(call *ast.CallExpr, file *ast.File, at token.Po
 		return n.fail(9)
 	}
 	body = strings.ReplaceAll(body, "\x00", "")
+	if tail {
+		body = strings.ReplaceAll(body, "\x01", "")
+		fmt.Fprintf(&sb, "%s\n}\n", body)
+		n.log = append(n.log, fmt.Sprintf("%s: inlined %s (tail position)", n.fset.Position(call.Pos()), ref.name))
+		n.noteInlined(ref)
+		registerImports()
+		return sb.String(), nil, true
+	}
 	body = strings.ReplaceAll(body, "\x01", "; break "+label)
 	// a labeled switch (not a loop): `continue` inside a copied failure handler still means the caller's loop
 	fmt.Fprintf(&sb, "%s:\nswitch {\ndefault:\n%s\nbreak %s\n}\n}\n", label, body, label)
 	n.log = append(n.log, fmt.Sprintf("%s: inlined %s", n.fset.Position(call.Pos()), ref.name))
 	n.noteInlined(ref)
+	registerImports()
 	return sb.String(), temps, true
 }
 
@@ -889,6 +932,14 @@ func (n *normalizer) rewriteStmt(st ast.Stmt, file *ast.File) (string, bool) {
 	targets, ok := n.hoistTargets(exprs)
 	if !ok || len(targets) == 0 {
 		return "", false
+	}
+	if rs, isRet := st.(*ast.ReturnStmt); isRet && multiCall != nil && len(targets) == 1 && targets[0] == multiCall {
+		// `return helper(...)`: the helper's own returns take the place of this one
+		if ref := n.resolveCallee(multiCall); ref != nil && n.encl[rs] != nil && types.Identical(ref.sig.Results(), n.encl[rs].Results()) {
+			if txt, _, ok := n.inlineCallX(multiCall, file, st.Pos(), &inlineOpts{tail: true}); ok {
+				return txt, true
+			}
+		}
 	}
 	var pre strings.Builder
 	var edits []textEdit
@@ -1112,6 +1163,7 @@ func (n *normalizer) normalizePackage() map[string][]byte {
 		return out
 	}
 	out := map[string][]byte{}
+	n.encl = map[ast.Stmt]*types.Signature{}
 	for _, f := range n.pkg.Syntax {
 		fname := n.fset.Position(f.Pos()).Filename
 		var stmts []ast.Stmt
@@ -1121,10 +1173,24 @@ func (n *normalizer) normalizePackage() map[string][]byte {
 			if !ok || fd.Body == nil {
 				continue
 			}
+			tag := func(from int, t types.Type) {
+				sig, _ := t.(*types.Signature)
+				for _, st := range stmts[from:] {
+					n.encl[st] = sig
+				}
+			}
+			k0 := len(stmts)
 			collectStmtsX(fd.Body, &stmts, next)
+			if o := n.pkg.TypesInfo.Defs[fd.Name]; o != nil {
+				tag(k0, o.Type())
+			}
 			ast.Inspect(fd.Body, func(x ast.Node) bool {
 				if fl, ok := x.(*ast.FuncLit); ok {
+					k1 := len(stmts)
 					collectStmtsX(fl.Body, &stmts, next)
+					if t := n.pkg.TypesInfo.TypeOf(fl); t != nil {
+						tag(k1, t)
+					}
 				}
 				return true
 			})
@@ -1160,6 +1226,19 @@ func (n *normalizer) normalizePackage() map[string][]byte {
 		}
 		edits = append(edits, n.extra[fname]...)
 		if len(edits) > 0 {
+			var paths []string
+			for k := range n.addImp[f] {
+				paths = append(paths, k)
+			}
+			sort.Strings(paths)
+			imp := ""
+			for _, k := range paths {
+				imp += "\nimport " + n.addImp[f][k] + " \"" + k + "\""
+			}
+			if imp != "" {
+				at := n.off(f.Name.End())
+				edits = append(edits, textEdit{at, at, imp + "\n"})
+			}
 			out[fname] = applyEdits(n.src[fname], edits)
 		}
 	}
